@@ -278,9 +278,16 @@ theorem stepClient_cases {P : G → Prop} (g : G) (c : Client) (f : Fault)
       P (match bget g.cfg g.store c.kind.key 0 with
          | .found v m => g.finish c (.condFailed (max rev m) (some (c.kind.key, v, m))) rev
          | .notFound _ => g.finish c (.condFailed rev fb) rev))
-    (hNop : P g) : P (stepClient g c f) := by
-  obtain ⟨id, kind, pc, bd⟩ := c
+    (hNop : P g)
+    (hRefuse : dealSite c = true → g.windowFull = true → P (g.refuse c (refusal c))) : P (stepClient g c f) := by
   unfold stepClient
+  split
+  · rename_i h
+    simp only [Bool.and_eq_true] at h
+    exact hRefuse h.1 h.2
+  clear hRefuse
+  obtain ⟨id, kind, pc, bd⟩ := c
+  unfold stepClientCore
   split
   · exact hStartCreate _ _ ‹_› ‹_›
   · exact hStartUpdate _ _ _ ‹_› ‹_›
@@ -392,6 +399,7 @@ theorem stepClient_noW (g : G) (c : Client) (f : Fault) : NoW g (stepClient g c 
     split <;> exact h.of_eq (by simp) (by simp)
   · intros; split <;> exact .inl ⟨rfl, rfl⟩
   · exact .inl ⟨rfl, rfl⟩
+  · intros; exact .inl ⟨rfl, rfl⟩
 
 /-- Case analysis of the retry loop's read step. -/
 theorem stepRetryRead_cases {P : G → Prop} (g : G)
@@ -402,8 +410,9 @@ theorem stepRetryRead_cases {P : G → Prop} (g : G)
         ∃ val m, getInternal g.cfg g.store w.key 0 = some (val, m) ∧ (val = [] ∨ m ≠ w.rev)) →
       P { g with retryQ := rest })
     (hDeal : ∀ w rest val, g.retryPc = none → g.retryQ = w :: rest →
-      getInternal g.cfg g.store w.key 0 = some (val, w.rev) → val ≠ [] →
-      P { g with dealt := g.dealt + 1, retryPc := some { w := w, rev := g.dealt + 1, val := val } }) :
+      getInternal g.cfg g.store w.key 0 = some (val, w.rev) → val ≠ [] → g.windowFull = false →
+      P { g with dealt := g.dealt + 1, retryPc := some { w := w, rev := g.dealt + 1, val := val } })
+    (hFull : g.retryPc = none → g.windowFull = true → P g) :
     P (stepRetryRead g) := by
   unfold stepRetryRead
   split
@@ -422,7 +431,9 @@ theorem stepRetryRead_cases {P : G → Prop} (g : G)
           simp only [Bool.or_eq_true, beq_iff_eq, bne_iff_ne, ne_eq, not_or, Decidable.not_not,
             List.length_eq_zero_iff] at hc
           obtain ⟨hne, rfl⟩ := hc
-          exact hDeal w rest val hn hq hget hne
+          split
+          · exact hFull hn ‹_›
+          · exact hDeal w rest val hn hq hget hne (by simpa using ‹¬ g.windowFull = true›)
 
 /-- Case analysis of the retry loop's commit step, with the tuple match resolved. -/
 theorem stepRetryCommit_cases {P : G → Prop} (g : G) (f : Fault)
@@ -447,6 +458,7 @@ theorem stepRetryCommit_cases {P : G → Prop} (g : G) (f : Fault)
 
 theorem stepRetryRead_noW (g : G) : NoW g (stepRetryRead g) := by
   apply stepRetryRead_cases
+  · intros; exact .inl ⟨rfl, rfl⟩
   · intros; exact .inl ⟨rfl, rfl⟩
   · intros; exact .inl ⟨rfl, rfl⟩
   · intros; exact .inl ⟨rfl, rfl⟩
@@ -1400,6 +1412,9 @@ theorem SInv.stepClient {g0 g : G} (h0 : G0OK g0) (hv : KB.SInv g.view) (h : SIn
       have := hci k v m hres.2
       omega
   · exact h
+  · -- `Deal` refused: the request returns, nothing else changes
+    intro _ _
+    exact ⟨hE.core, hE.hist, hE.cl, hE.dn, hE.rp⟩
 
 /-! ### the other actions, runs, initial states -/
 
@@ -1408,13 +1423,14 @@ theorem SInv.stepRetryRead {g0 g : G} (h : SInv g0 g) : SInv g0 (stepRetryRead g
   · intros; exact h
   · intros; exact h
   · intro w rest _ _ _; exact ⟨h.core, h.hist, h.cl, h.dn, h.rp⟩
-  · intro w rest val hn hq hget _
+  · intro w rest val hn hq hget _ _
     have hle : w.rev ≤ g.dealt := getInternal_le h.core.keys hget
     refine ⟨h.core.mono (Nat.le_succ _), h.hist, h.cl.mono (Nat.le_succ _), h.dn, ?_⟩
     intro p hp
     simp only [Option.some.injEq] at hp
     subst hp
     exact ⟨fresh_deal h.core, by show w.rev < g.dealt + 1; omega⟩
+  · intros; exact h
 
 theorem SInv.stepRetryCommit {g0 g : G} (h0 : G0OK g0) (hv : KB.SInv g.view) (h : SInv g0 g) (f : Fault) :
     SInv g0 (stepRetryCommit g f) := by
@@ -1634,43 +1650,63 @@ theorem bget_nil (c : Cfg) (k : Bytes) : bget c [] k 0 = .notFound 0 := by
 theorem run_append (g : G) (a b : List Action) : run g (a ++ b) = run (run g a) b := by
   simp [run, List.foldl_append]
 
-/-- a delete of a missing key: consumes one revision and changes nothing else that matters -/
-def bump : List Action := [.begin 0 (.delete [] 0), .step 0 .none, .step 0 .none]
+/-- a delete of a missing key, then the sequencer: consumes one revision and changes nothing else that matters -/
+def bump : List Action := [.begin 0 (.delete [] 0), .step 0 .none, .step 0 .none, .seq]
 
-theorem run_bump (g : G) (hc : g.clients = []) (hs : g.store = []) :
-    (run g bump).clients = [] ∧ (run g bump).store = [] ∧ (run g bump).wlog = g.wlog ∧
-    (run g bump).dealt = g.dealt + 1 := by
-  obtain ⟨cfg, store, dealt, committed, slots, retryQ, retryPc, clients, emitted, hist, wlog, done, begins, spans⟩ := g
-  simp only at hc hs
-  subst hc hs
-  simp [run, bump, act, G.client, stepClient, bget_nil, G.setClient, G.finish, G.notify, mkW]
+/-- what `bump` needs and keeps: nobody in flight, empty store, the read revision has caught up, a ring of ≥ 2 slots -/
+structure Calm (g : G) : Prop where
+  clients : g.clients = []
+  store : g.store = []
+  slots : g.slots = []
+  caught : g.committed = g.dealt
+  ring : 1 < g.cfg.ringLen
+
+theorem Calm.open {g : G} (h : Calm g) : g.windowFull = false := by
+  have := h.ring
+  simp only [G.windowFull, windowFullAt, h.caught, Bool.and_eq_false_iff, decide_eq_false_iff_not]
+  right; omega
+
+theorem run_bump (g : G) (h : Calm g) :
+    Calm (run g bump) ∧ (run g bump).wlog = g.wlog ∧ (run g bump).dealt = g.dealt + 1 := by
+  obtain ⟨hc, hs, hsl, hcd, hr⟩ := h
+  obtain ⟨cfg, store, dealt, committed, slots, retryQ, retryPc, clients, emitted, hist, wlog, done, begins, spans,
+    refused⟩ := g
+  simp only at hc hs hsl hcd hr
+  subst hc hs hsl hcd
+  have hwf : windowFullAt cfg committed committed = false := by
+    simp only [windowFullAt, Bool.and_eq_false_iff, decide_eq_false_iff_not]
+    right; omega
+  refine ⟨⟨?_, ?_, ?_, ?_, ?_⟩, ?_, ?_⟩ <;>
+    simp [run, bump, act, G.client, stepClient, stepClientCore, dealSite, G.windowFull, hwf, bget_nil, G.setClient,
+      G.finish, G.notify, mkW, stepSeq] <;> first | exact hr | omega
 
 def bumps : Nat → List Action
   | 0 => []
   | n + 1 => bump ++ bumps n
 
-theorem run_bumps (n : Nat) (g : G) (hc : g.clients = []) (hs : g.store = []) :
-    (run g (bumps n)).clients = [] ∧ (run g (bumps n)).store = [] ∧ (run g (bumps n)).wlog = g.wlog ∧
-    (run g (bumps n)).dealt = g.dealt + n := by
+theorem run_bumps (n : Nat) (g : G) (h : Calm g) :
+    Calm (run g (bumps n)) ∧ (run g (bumps n)).wlog = g.wlog ∧ (run g (bumps n)).dealt = g.dealt + n := by
   induction n generalizing g with
-  | zero => exact ⟨hc, hs, rfl, rfl⟩
+  | zero => exact ⟨h, rfl, rfl⟩
   | succ n ih =>
-    obtain ⟨h1, h2, h3, h4⟩ := run_bump g hc hs
-    obtain ⟨i1, i2, i3, i4⟩ := ih (run g bump) h1 h2
+    obtain ⟨h1, h3, h4⟩ := run_bump g h
+    obtain ⟨i1, i3, i4⟩ := ih (run g bump) h1
     simp only [bumps, run_append]
-    exact ⟨i1, i2, i3.trans h3, by omega⟩
+    exact ⟨i1, i3.trans h3, by omega⟩
 
 /-- a create on the empty store -/
 def mkCreate : List Action := [.begin 0 (.create [47] [1]), .step 0 .none, .step 0 .none]
 
 theorem run_mkCreate (g : G) (hc : g.clients = []) (hs : g.store = []) (hw : g.wlog = [])
-    (hm : (g.dealt + 1) % 2 ^ 64 ≠ 0) :
+    (hwf : g.windowFull = false) (hm : (g.dealt + 1) % 2 ^ 64 ≠ 0) :
     (run g mkCreate).wlog = [⟨[47], g.dealt + 1, some [1], .absent⟩] ∧
     (run g mkCreate).store.get (idxKey [47]) = some (be8 (g.dealt + 1)) := by
-  obtain ⟨cfg, store, dealt, committed, slots, retryQ, retryPc, clients, emitted, hist, wlog, done, begins, spans⟩ := g
+  obtain ⟨cfg, store, dealt, committed, slots, retryQ, retryPc, clients, emitted, hist, wlog, done, begins, spans,
+    refused⟩ := g
   simp only at hc hs hw hm
   subst hc hs hw
-  simp [run, mkCreate, act, G.client, stepClient, G.setClient, createOps, doCommit, commit, applyOps, applyOp,
+  have hwf' : windowFullAt cfg dealt committed = false := hwf
+  simp [run, mkCreate, act, G.client, stepClient, stepClientCore, dealSite, G.windowFull, hwf', G.setClient, createOps, doCommit, commit, applyOps, applyOp,
     Store.get, applied, G.logWrite, finishCreate, G.finish, G.notify, mkW]
   rw [Store.get_put, Store.get_put]
   have : idxKey [47] ≠ encode [47] (dealt + 1) := by
@@ -1687,9 +1723,9 @@ theorem index_agrees_needs_bound :
   refine ⟨{}, run (run {} (bumps (2 ^ 64))) mkCreate, ?_, ?_, ⟨bumps (2 ^ 64) ++ mkCreate, run_append _ _ _⟩, ?_⟩
   · exact ⟨⟨rfl, rfl, rfl, rfl, rfl⟩, rfl, rfl, rfl⟩
   · exact ⟨[], rfl, List.Pairwise.nil, by simp, by decide⟩
-  · obtain ⟨h1, h2, h3, h4⟩ := run_bumps (2 ^ 64) {} rfl rfl
+  · obtain ⟨h1, h3, h4⟩ := run_bumps (2 ^ 64) {} ⟨rfl, rfl, rfl, rfl, by decide⟩
     have h4' : (run {} (bumps (2 ^ 64))).dealt = 2 ^ 64 := by rw [h4]
-    obtain ⟨hw, hg⟩ := run_mkCreate _ h1 h2 h3 (by rw [h4']; decide)
+    obtain ⟨hw, hg⟩ := run_mkCreate _ h1.clients h1.store h3 h1.open (by rw [h4']; decide)
     refine ⟨⟨[47], 2 ^ 64 + 1, some [1], .absent⟩, ?_, ?_⟩
     · rw [hw, h4']; rfl
     · simp only []
